@@ -1,6 +1,7 @@
 package main
 
 import (
+	"os"
 	"fmt"
 	"go/token"
 	"go/types"
@@ -456,6 +457,9 @@ func (fr *Frame) applyContract(con *Contract, tgt callTarget, args [][]string, a
 		if err != nil {
 			if strings.Contains(err.Error(), "unresolved name") && calleeHasLocal(tgt.fn, err.Error()) {
 				// a clause about the callee's own locals (checked when the callee is verified): not usable here
+				if os.Getenv("GOVC_DEBUG") != "" {
+					fmt.Fprintf(os.Stderr, "ensures of %s skipped at call site: %v\n", short, err)
+				}
 				continue
 			}
 			fr.contractError(fmt.Sprintf("ensures of %s: %v", short, err))
